@@ -11,6 +11,11 @@ import json, os, shutil, subprocess, sys, time, random
 
 ENV = dict(os.environ, GOFLAGS="-mod=mod", GOPROXY="off", GOSUMDB="off", GOTOOLCHAIN="local")
 
+def ns(cmd):
+    """run cmd in a private network namespace: the suite binds fixed ports, other runs on this machine would collide"""
+    return "unshare -n sh -c 'ip link set lo up; %s'" % cmd.replace("'", "'\\''")
+
+
 def sh(cmd, cwd, timeout=1500):
     p = subprocess.run(cmd, cwd=cwd, env=ENV, shell=True, stdout=subprocess.PIPE, stderr=subprocess.STDOUT, text=True, timeout=timeout)
     return p.returncode, p.stdout
@@ -40,7 +45,7 @@ def main():
         # the suite has one test the baseline itself lists as flaky (Test_ConnectionViaNetwork) and uses fixed ports:
         # a failure is retried; only a suite that fails four times in a row counts as failing with the change
         for attempt in range(4):
-            rc, o = sh("go test -vet=off -count=1 ./...", wt)
+            rc, o = sh(ns("go test -vet=off -count=1 ./..."), wt)
             if rc != 0:
                 time.sleep(random.randint(3, 15)); continue
             break
@@ -67,7 +72,7 @@ def main():
                 placed.append(os.path.relpath(dst, wt))
         out["demo_files"] = placed
         cmd = "go test -vet=off -count=1 " + demo_args
-        rc_with, o_with = sh(cmd, wt)
+        rc_with, o_with = sh(ns(cmd), wt)
         out["demo_with_change_rc"] = rc_with
         # revert the source change only
         changed = [l[6:] for l in patch.splitlines() if l.startswith("+++ b/")]
@@ -75,7 +80,7 @@ def main():
         for f in [l[6:] for l in patch.splitlines() if l.startswith("+++ b/")]:
             pass
         # files newly created by the patch
-        rc_without, o_without = sh(cmd, wt)
+        rc_without, o_without = sh(ns(cmd), wt)
         out["demo_without_change_rc"] = rc_without
         # re-apply and run the checks
         open(os.path.join(wt, ".seed.diff"), "w").write(patch)
